@@ -12,7 +12,7 @@ import glob, json, os, re, shutil, subprocess, sys
 from concurrent.futures import ThreadPoolExecutor
 
 VERIF = os.path.dirname(os.path.dirname(os.path.abspath(__file__)))
-LOGS = {2: ['seed2-round1.log'], 3: ['seed3-round1.log', 'seed3-round1b.log'], 4: ['seed4-round1.log', 'seed4-round1b.log'], 5: ['seed5-round1.log'], 6: ['seed6-round1.log']}
+LOGS = {7: ['seed7-round1.log'], 2: ['seed2-round1.log'], 3: ['seed3-round1.log', 'seed3-round1b.log'], 4: ['seed4-round1.log', 'seed4-round1b.log'], 5: ['seed5-round1.log'], 6: ['seed6-round1.log']}
 NOTE = {'seed3-round1b.log': 'measured while round 7 was already editing the packs (not a clean first measurement)'}
 
 
@@ -40,7 +40,7 @@ def first_measurements():
 def store():
     fm = first_measurements()
     n = 0
-    for rnd in (2, 3, 4, 5, 6):
+    for rnd in (2, 3, 4, 5, 6, 7):
         for d in sorted(glob.glob(f'/tmp/seed{rnd}-out/C*/[0-9]*')):
             if not all(os.path.isfile(os.path.join(d, f)) for f in ('patch.diff', 'demo.py', 'meta.json')):
                 continue
@@ -61,7 +61,7 @@ def store():
                     meta[key] = old[key]
             json.dump(meta, open(os.path.join(dst, 'meta.json'), 'w'), indent=1)
             n += 1
-    print('stored', n, 'seeds of rounds 2-6')
+    print('stored', n, 'seeds of rounds 2-7')
 
 
 def final_one(d):
